@@ -3,6 +3,7 @@
   canonical result line per operation (same format as harness/src/exec.rs).
 -/
 import SnowVerif.Model.Builder
+import SnowVerif.Model.Resolvers
 import SnowVerif.Crypto.Real
 
 open SnowVerif SnowVerif.Model SnowVerif.Bytes
@@ -42,11 +43,6 @@ def b01 (b : Bool) : String := if b then "1" else "0"
 
 /-! ### resolver expressions -/
 
-inductive RExpr
-  | leaf (name : String)
-  | fb (a b : RExpr)
-  deriving Repr, Inhabited
-
 /-- Split `a,b` at the top-level comma. -/
 def splitTop (cs : List Char) : Option (List Char × List Char) :=
   let rec go (depth : Nat) (acc : List Char) : List Char → Option (List Char × List Char)
@@ -72,27 +68,10 @@ def parseRExpr (fuel : Nat) (s : String) : Option RExpr :=
       | none => none
     else some (.leaf s)
 
-/-- What a leaf resolver provides for (kind, choice). -/
-def leafProvides (leaf kind choice : String) : Option Real.Backend :=
-  match leaf with
-  | "toy" => some .toy
-  | "toy-norng" => if kind == "rng" then none else some .toy
-  | "toy-nodh" => if kind == "dh" then none else some .toy
-  | "toy-nocipher" => if kind == "cipher" then none else some .toy
-  | "toy-nohash" => if kind == "hash" then none else some .toy
-  | "none" => none
-  | "default" | "ring" =>
-    match Generated.resolverRows.find? fun r => r.resolver == leaf && r.kind == kind && r.choice == choice with
-    | some row => if row.available then some (if leaf == "ring" then .ring else .default) else none
-    | none => none
-  | _ => none
-
-def provides : RExpr → String → String → Option Real.Backend
-  | .leaf l, k, c => leafProvides l k c
-  | .fb a b, k, c =>
-    match provides a k c with
-    | some x => some x
-    | none => provides b k c
+def toReal : Backend → Real.Backend
+  | .toy => .toy
+  | .default => .default
+  | .ring => .ring
 
 def dhSel (c : String) : Nat := if c == "Curve25519" then 0 else if c == "Curve448" then 1 else 2
 def cipherSel (c : String) : Nat := if c == "ChaChaPoly" then 0 else if c == "XChaChaPoly" then 1 else 2
@@ -108,16 +87,17 @@ def suiteFor (e : RExpr) (p : Params) : Suite × Avail :=
   let cb := provides e "cipher" cc
   let hb := provides e "hash" hc
   let rb := provides e "rng" "-"
-  let d := Real.dhImpl (db.getD .toy) (dhSel dc)
-  let c := Real.cipherImpl (cb.getD .toy) (cipherSel cc)
-  let h := Real.hashImpl (hb.getD .toy) (hashSel hc)
-  (Real.mkSuite d (cb.getD .toy) c h,
+  let d := Real.dhImpl (toReal (db.getD .toy)) (dhSel dc)
+  let c := Real.cipherImpl (toReal (cb.getD .toy)) (cipherSel cc)
+  let h := Real.hashImpl (toReal (hb.getD .toy)) (hashSel hc)
+  (Real.mkSuite d (toReal (cb.getD .toy)) c h,
    { rng := rb.isSome, dh := db.isSome, cipher := cb.isSome, hash := hb.isSome })
 
 def resolveLine (e : RExpr) (kind choice : String) : String :=
   match provides e kind choice with
   | none => "none"
-  | some b =>
+  | some b0 =>
+    let b := toReal b0
     match kind with
     | "rng" => "some"
     | "dh" =>
@@ -184,7 +164,8 @@ def primLine (parts : List String) : String :=
     | "hash" | "hmac" | "hkdf" =>
       (match provides e "hash" (arg 3) with
        | none => "none"
-       | some b =>
+       | some b0 =>
+         let b := toReal b0
          let h := Real.hashImpl b (hashSel (arg 3))
          let S := Real.mkSuite (Real.dhImpl .toy 0) .toy (Real.cipherImpl .toy 0) h
          if kind == "hash" then s!"ok {hex (h.hash (unhex (arg 4)))}"
@@ -196,7 +177,8 @@ def primLine (parts : List String) : String :=
     | "enc" | "dec" | "rekey" =>
       (match provides e "cipher" (arg 3) with
        | none => "none"
-       | some b =>
+       | some b0 =>
+         let b := toReal b0
          let c := Real.cipherImpl b (cipherSel (arg 3))
          let key := unhex (arg 4)
          if kind == "enc" then
@@ -213,7 +195,8 @@ def primLine (parts : List String) : String :=
     | "pub" | "dh" =>
       (match provides e "dh" (arg 3) with
        | none => "none"
-       | some b =>
+       | some b0 =>
+         let b := toReal b0
          let d := Real.dhImpl b (dhSel (arg 3))
          let k := unhex (arg 4)
          if !d.validPriv k then "panic"
